@@ -1113,6 +1113,45 @@ def _sink_local(fn: ast.AST, keep: set[str] | None = None) -> bool:
     return done
 
 
+def _unroll_comprehensions(fn: ast.AST, keep: set[str] | None = None) -> bool:
+    """N33: a list comprehension all of whose clauses iterate sequences of known length (literal tuples, Conv2d geometry
+    pairs) without filters, with a call-free element, is the list display of its elements."""
+    done = False
+
+    class _U(ast.NodeTransformer):
+        def visit_ListComp(self, c: ast.ListComp) -> ast.AST:  # noqa: N802
+            nonlocal done
+            self.generic_visit(c)
+            if any(g.ifs or g.is_async or not isinstance(g.target, ast.Name) for g in c.generators):
+                return c
+            if any(isinstance(x, (ast.Call, ast.Await, ast.NamedExpr, ast.Lambda)) for x in ast.walk(c.elt)):
+                return c
+            seqs = []
+            for g in c.generators:
+                it = g.iter
+                if isinstance(it, (ast.Tuple, ast.List)) and all(isinstance(x, ast.Constant) for x in it.elts):
+                    seqs.append((g.target.id, [copy.deepcopy(x) for x in it.elts]))
+                elif isinstance(it, ast.Name) and _known_len(it, fn) is not None:
+                    seqs.append((g.target.id, [_elem_of(it, j) for j in range(_known_len(it, fn))]))
+                else:
+                    return c
+            total = 1
+            for _t, xs in seqs:
+                total *= len(xs)
+            if not 0 < total <= MAX_UNROLL:
+                return c
+            rows: list[dict[str, ast.expr]] = [{}]
+            for t, xs in seqs:
+                rows = [{**r, t: x} for r in rows for x in xs]
+            elts = [_Sub(r).visit(copy.deepcopy(c.elt)) for r in rows]
+            done = True
+            return ast.copy_location(ast.List(elts=elts, ctx=ast.Load()), c)
+    _U().visit(fn)
+    if done:
+        ast.fix_missing_locations(fn)
+    return done
+
+
 def _default_rebind(fn: ast.AST, keep: set[str] | None = None) -> bool:
     """N25: `v = a; if v is None: v = b` with `a` a plain name / attribute and v a new local is `v = a if a is not None else b`
     (the default-value idiom written as a rebinding)."""
@@ -1210,6 +1249,7 @@ def _fold(fn: ast.AST, keep: set[str] | None = None) -> None:
     if isinstance(fn, (ast.FunctionDef, ast.AsyncFunctionDef)):
         _scalarise_records(fn, keep)
         _fuse_generators(fn, keep)
+        _unroll_comprehensions(fn, keep)
         _sort_in_place(fn, keep)
         _inline_star_tuples(fn, keep)
         _default_rebind(fn, keep)
